@@ -410,7 +410,7 @@ impl TmplGroup {
                 w.expr_stmt(|w| {
                     write!(
                         w,
-                        r#"R[{path}]=D({path},(require,exports,module)=>{{{}}})"#,
+                        "R[{path}]=D({path},(require,exports,module)=>{{{}\n}})",
                         script,
                         path = gen_lit_str(p)
                     )?;
